@@ -7,6 +7,7 @@ import (
 	"context"
 	"sort"
 
+	"github.com/gauss-project/aurorafs/pkg/bitvector"
 	"github.com/gauss-project/aurorafs/pkg/boson"
 	"github.com/gauss-project/aurorafs/pkg/chunkinfo/pb"
 )
@@ -58,6 +59,11 @@ func (ci *ChunkInfo) VerifShutdown() {
 	ci.stateStorer, ci.storer, ci.traversal, ci.route, ci.streamer = nil, nil, nil, nil, nil
 	ci.oracleChain, ci.resolver = nil, nil // subPub stays: detached Publish goroutines may still use it
 	ci.cp, ci.cs = nil, nil
+	// the two ticker goroutines started by New never end and keep ci alive; they only look at
+	// ci.cd.presence (empty from now on) and ci.tt. Swap the tables for empty ones so that the
+	// 1000-slot request channels (~100 KB per instance) can be collected.
+	ci.cd = &chunkInfoDiscover{presence: map[string]map[string]*discoverBitVector{}}
+	ci.ct = &chunkInfoTabNeighbor{presence: map[string]map[string]*bitvector.BitVector{}, overlays: map[string][]boson.Address{}}
 }
 
 type VerifBits struct {
